@@ -35,7 +35,9 @@ Then write a demonstration: a small standalone Python program {out}/demo.py (run
 `cd <tree> && /venv/bin/python {out}/demo.py`) that drives the REAL code (unit level with mocks/fake sockets is
 fine, or a live proxy on 127.0.0.1 - loopback works, there is no external network) and exits 0 when the property
 holds (unchanged tree) and exits 1 printing what went wrong when your change is applied. Verify both: run it in
-your modified worktree (must exit 1) and with the change stashed (`git stash`; must exit 0; then `git stash pop`).
+your modified worktree (must exit 1) and with the change reverted (save `git diff > {out}/patch.diff`, then
+`git apply -R {out}/patch.diff`; must exit 0; then `git apply {out}/patch.diff` again). Do NOT use `git stash`: the stash is
+shared between worktrees of other people working in parallel.
 
 Confirm the existing tests still pass with your change: run at least the relevant test files/directories, e.g.
 `cd {wt} && /venv/bin/python -m pytest -q -p no:cacheprovider --timeout=900 -x tests/<dir>` and, if time permits,
